@@ -7,6 +7,7 @@ import (
 	"os"
 	"path/filepath"
 	"regexp"
+	"sort"
 	"strconv"
 	"strings"
 
@@ -116,6 +117,7 @@ func init() {
 	}
 	oracles["c09.format"] = oracleC09
 	oracles["c09.cli"] = oracleC09CLI
+	oracles["c09.checkAll"] = oracleC09CheckAll
 }
 
 // escalateFormat: a line or file on which the model of the formatter (or of a directive pattern) and the code disagree
@@ -387,6 +389,49 @@ func oracleC09CLI(p *Pair, env *Env, a [][]byte) *Failure {
 	return nil
 }
 
+// `format --check --all` fails exactly when some file would be rewritten — wherever that file comes in the walk —,
+// writes nothing, and passes right after `format --all`. args: tree
+func oracleC09CheckAll(p *Pair, env *Env, a [][]byte) *Failure {
+	t := decodeTree(a[0])
+	wouldChange := []string{}
+	for path, content := range t {
+		if !strings.HasSuffix(path, ".ra") {
+			continue
+		}
+		f := p.Impl(Op{"format.file", [][]byte{content}}, env.timeout)
+		if f.Status != "ok" {
+			return nil // a file format gives up on: C16's business
+		}
+		if !bytes.Equal(f.Out[0], content) {
+			wouldChange = append(wouldChange, path)
+		}
+	}
+	sort.Strings(wouldChange)
+	sb := mkSandbox(env)
+	defer os.RemoveAll(sb)
+	_ = t.write(sb)
+	before := snapshot(sb)
+	for _, mode := range [][]string{{"-l", "disabled"}, {"-l", "disabled", "-o", "github"}} {
+		c := runCLI(env, sb, nil, append(append([]string{}, mode...), "regex", "format", "--check", "--all")...)
+		if d := diffSnap(before, snapshot(sb)); len(d) > 0 {
+			return &Failure{What: "format --check --all wrote to the tree", Detail: strings.Join(d, ", ")}
+		}
+		if (c.exit != 0) != (len(wouldChange) > 0) {
+			return &Failure{What: "format --check --all: the verdict is not 'some file would be rewritten'",
+				Detail: fmt.Sprintf("mode %v: exit %d; files format would rewrite: %v", mode, c.exit, wouldChange)}
+		}
+	}
+	c := runCLI(env, sb, nil, "-l", "disabled", "regex", "format", "--all")
+	if c.exit != 0 {
+		return &Failure{What: "format --all fails on files format accepts one by one", Detail: tail(string(c.stderr), 300)}
+	}
+	c = runCLI(env, sb, nil, "-l", "disabled", "regex", "format", "--check", "--all")
+	if c.exit != 0 {
+		return &Failure{What: "format --check --all fails right after format --all", Detail: fmt.Sprintf("exit %d", c.exit)}
+	}
+	return nil
+}
+
 func genFormatCases(r *rand.Rand, tier string, withOracle bool) []Case {
 	nPat, nFile, nCli := 500, 350, 30
 	if tier == "thorough" {
@@ -417,6 +462,30 @@ func genFormatCases(r *rand.Rand, tier string, withOracle bool) []Case {
 			}
 		}
 		cases = append(cases, c)
+	}
+	if withOracle {
+		// small trees through --check --all: the untidy file first, in the middle, last, in include/, or nowhere
+		nT := 10
+		if tier == "thorough" {
+			nT = 80
+		}
+		tidy := func(body string) string {
+			return "##! Please refer to the documentation at\n##! https://coreruleset.org/docs/development/regex_assembly/.\n\n" + body
+		}
+		for i := 0; i < nT; i++ {
+			names := []string{"regex-assembly/942100.ra", "regex-assembly/942110.ra", "regex-assembly/942120-chain1.ra", "regex-assembly/include/words.ra", "regex-assembly/exclude/skip.ra"}
+			t := Tree{}
+			for _, nme := range names {
+				t[nme] = []byte(tidy(pick(r, []string{"foo\nbar\n", "##!> assemble\n  a\n  ##!=>\n  b\n##!<\n", "x\n"})))
+			}
+			if i%6 != 5 {
+				t[names[i%len(names)]] = []byte(pick(r, []string{"  foo\n", "foo\n\n\n", tidy("##!>   assemble\na\n##!<\n"), "##!> include  words\n"}))
+			}
+			if i%4 == 3 {
+				t[names[(i+2)%len(names)]] = []byte("\tbar\n")
+			}
+			cases = append(cases, Case{Kind: "tree:check-all", Oracles: []Op{{"c09.checkAll", [][]byte{encodeTree(t)}}}})
+		}
 	}
 	return cases
 }
